@@ -320,6 +320,13 @@ fn synthetic(rep: &mut Report, rng: &mut Rng, ntrees: usize, base_index: usize) 
             paths.push((root1.join("bad.name.a"), Some(false), "invalid"));
             paths.push((root1.join("bad.dir/x.a"), Some(false), "invalid"));
             paths.push((root1.join("bad.dir"), Some(true), "invalid"));
+            // hidden files: a leading dot and no other one
+            let _ = std::fs::write(root1.join(".x"), b"x");
+            paths.push((root1.join(".x"), Some(false), "invalid"));
+            if let Some(d) = t.dirs.iter().next() {
+                let _ = std::fs::write(root1.join(d).join(".gitignore"), b"x");
+                paths.push((root1.join(d).join(".gitignore"), Some(false), "invalid"));
+            }
             // spellings with relative components
             let mut spelled = vec![];
             for (p, k, c) in paths.iter().filter(|(p, _, _)| *p != root1 && *p != root2).take(8) {
@@ -369,6 +376,24 @@ fn synthetic(rep: &mut Report, rng: &mut Rng, ntrees: usize, base_index: usize) 
             handler.handle_event(Ok(Event::new(EventKind::Modify(ModifyKind::Any)).add_path(root1.join(t.files.keys().next().cloned().unwrap_or_else(|| "nothing.a".into())))));
             if !t.files.is_empty() && drain(&rx).is_empty() {
                 rep.violation("handler-stopped", "C12/handler-stopped-after-error", json!({}), json!({"kind": "synthetic", "tree_index": base_index + ti}));
+            }
+        }
+        // the watched root itself goes away (renamed, removed): notifications about it still name
+        // the root directory, whatever their kind says
+        {
+            let (tx, rx) = event_channel();
+            let roots = vec![root1.clone()];
+            let mut handler = Handler::new(roots.clone(), tx);
+            let _ = std::fs::remove_dir_all(&root1);
+            for (kname, kind) in kinds() {
+                rep.eval();
+                handler.handle_event(Ok(Event::new(kind).add_path(root1.clone())));
+                let got = drain(&rx);
+                let exp = expectation(&roots, &root1, kname, None);
+                let scen = json!({"kind": "synthetic", "event": kname, "path": "<the watched root, which no longer exists>",
+                    "path_class": "vanished-root", "tree_index": base_index + ti});
+                judge(rep, &got, &exp, kname, "root", &scen, false);
+                rep.count("vanished_root_events", 1);
             }
         }
         if rep.samples.len() < 2 {
